@@ -958,17 +958,32 @@ structure PackLay where
   tail : Nat
   hdr : Nat
   flate : Bool
-  step : Nat          -- order of the kinds: member i has kind (i * step) % 7
+  step : Nat          -- order of the kinds: member i has kind (i * step + rot) % 7
+  rot : Nat := 0      -- kind of the FIRST member (variants from 288 on; 0 = a dictionary, as in every variant below 288)
+  digitFirst : Bool := false   -- the first member's spelling starts with a DIGIT (redrawn until it does)
 
 /-- data, /First and the members' (number, value) of a packed object stream -/
 def packData (r : Rng) (nums : List Nat) (l : PackLay) : Bytes × Nat × List (Nat × Obj) × Rng :=
   -- spellings
   let (ms, r) := nums.zipIdx.foldl (fun (acc : List (Nat × Obj × Bytes) × Rng) (n, i) =>
-    let ((v, sv), r) := memberOfKind acc.2 ((i * l.step) % 7)
+    let kind := (i * l.step + l.rot) % 7
+    if l.digitFirst && i == 0 then
+      let (found, r) := (List.range 40).foldl (fun (a : Option (Obj × Bytes) × Rng) _ =>
+        match a.1 with
+        | some _ => a
+        | none =>
+          let ((v, sv), r) := memberOfKind a.2 kind
+          let (ch, r) := rndChoices r 60
+          let body := (spell sv ch).1
+          (if (body.head?.map fun b => decide (48 ≤ b ∧ b ≤ 57)) == some true then some (v, body) else none, r)) (none, acc.2)
+      let (v, body) := found.getD (.int 7, bs "7")
+      (acc.1 ++ [(n, v, body)], r)
+    else
+    let ((v, sv), r) := memberOfKind acc.2 kind
     let (ch, r) := rndChoices r 60
     (acc.1 ++ [(n, v, (spell sv ch).1)], r)) ([], r)
   -- content: (number, offset) pairs
-  let gap0 : Bytes := if l.slack == 3 then [32, 10, 32] else []
+  let gap0 : Bytes := match l.slack with | 3 => [32, 10, 32] | 5 => [10, 32] | 6 => [32] | _ => []
   let (content, pairs, _) := ms.zipIdx.foldl (fun (acc : Bytes × List (Nat × Nat) × Bytes) (m, i) =>
     let (content, pairs, prev) := acc
     let body := m.2.2
@@ -991,6 +1006,9 @@ def packData (r : Rng) (nums : List Nat) (l : PackLay) : Bytes × Nat × List (N
   let pad : Bytes := match l.slack with
     | 1 => if gap0.isEmpty && !startsRegular firstBody then [] else [32]
     | 2 => [32, 10] ++ bs "% 99 0 (not a pair)\n" ++ [9]
+    | 4 => []          -- the header ENDS exactly at /First: the last offset abuts the first member, whatever it starts with
+    | 5 => [32]        -- /First points INTO the white space after the header (one byte in; two more follow)
+    | 6 => []          -- /First = end of the last header number, white space FOLLOWS /First (first offset 1)
     | _ => if l.hdr == 1 then [10] else [32]
   (hdr ++ pad ++ content ++ tail, (hdr ++ pad).length, ms.map fun m => (m.1, m.2.1), r)
 
@@ -1008,8 +1026,32 @@ def packLayOf (variant : Nat) : PackLay :=
   { sepMode := (variant / 2) % 6, ofsAtSep := (variant / 12) % 2 == 1, slack := (variant / 24) % 4, tail := (variant / 96) % 3,
     hdr := (variant + variant / 7) % 4, flate := (variant / 3) % 2 == 1, step := 1 + (variant / 7) % 6 }
 
-/-- variants 0 .. 287 cover layout x separator mode x offset convention x slack x tail -/
-def packVariants : Nat := 288
+/-- `pack` variants 288 ..: THE HEADER ENDS EXACTLY AT /First.  The header is the first /First bytes of the decoded data and
+    nothing else (ISO 32000-1 7.5.7: /First = offset of the first member; the pairs are read from the bytes before it), so
+    the last offset may be followed DIRECTLY by the first member even when that member starts with a digit: data
+    `4 0 5 27 (x)` with /N 2 /First 7 is pairs (4,0) (5,2) and members `7`, `(x)` - a reader that parses the pairs on the
+    whole data reads the last offset as 27.
+      N      1 (the only offset abuts), 2, 7
+      slack  4  no byte between the last header number and /First (= length of the pair list), first member at /First
+             5  /First points INTO the white space after the header (one byte in, two more follow: first offset 2)
+             6  /First = end of the last header number, white space follows (first offset 1)
+      first member  one of every kind (dictionary, array, string, name, integer, real, boolean as drawn) and, twice,
+             an integer / a real whose spelling STARTS WITH A DIGIT (redrawn until it does)
+    x two mixes of header style (incl. leading zeros, one pair per line), FlateDecode, separators, offset convention, tail.
+    A reference is not used as a member value (the writer never stores one; `7 0 R` at top level of a member is legal
+    but says nothing more than the digit-leading integer).  Oracle as for every `pack` case: every member is defined with
+    its value. -/
+def packLayX (j : Nat) : PackLay :=
+  let fk := (j / 9) % 9
+  let alt := (j / 81) % 2
+  { sepMode := (j / 2) % 6, ofsAtSep := (j / 5) % 2 == 1, slack := 4 + (j / 3) % 3, tail := (j / 7) % 3,
+    hdr := (j + alt * 2 + j / 9) % 4, flate := (j / 3 + alt) % 2 == 1, step := 1 + (j / 11) % 6,
+    rot := if fk == 7 then 4 else if fk == 8 then 5 else fk, digitFirst := fk ≥ 7 }
+
+def packXVariants : Nat := 162
+
+/-- variants 0 .. 287 cover layout x separator mode x offset convention x slack x tail; 288 .. 449 = `packLayX` -/
+def packVariants : Nat := 288 + packXVariants
 
 def genPack (seed variant : Nat) : Scene :=
   let r := Rng.mk' (seed * 7243 + variant * 19 + 4)
@@ -1018,7 +1060,9 @@ def genPack (seed variant : Nat) : Scene :=
   let (bin, r) := r.nat 2
   let (p1, r) := rndValObj r 1 0
   let (p2, r) := rndValObj r 2 0
-  let (c, ms, r) := packContainer r 20 [11, 12, 13, 14, 15, 16, 17] (packLayOf variant)
+  let nums : List Nat := if variant < 288 then [11, 12, 13, 14, 15, 16, 17] else
+    match (variant - 288) % 3 with | 0 => [11] | 1 => [11, 12] | _ => [11, 12, 13, 14, 15, 16, 17]
+  let (c, ms, r) := packContainer r 20 nums (if variant < 288 then packLayOf variant else packLayX (variant - 288))
   let (objs, r) := shuffleL [p1, p2, c] r
   let (lay, _) := rndLay r kind 30 65535
   ⟨garbage, bin == 1, [({ objs, members := ms, frees := [], zero := true, root := (1, 0), lay }, .auto)], some [0]⟩
